@@ -397,7 +397,9 @@ def _trav(prop, tier, seed, wd, replay, rule):
                  (qcfg("graphs-sim-5x6-mixed", NV=5, InitBV=5, NL=6, Kinds={"D", "U", "T", "D2"}, OnlyOps={"new", "setv"}),
                   {"kind": prop, "density": 1, "seed": seed, "big": True}, ("num=60", 10), big_filter(3, 6))]
     for name, consts in cfgs:
-        run_config(run, prop, name, consts, wd, spec)
+        # the 3-link pool alone is 27 million probes (35 min): every third state of it, chosen by hash
+        pf = big_filter(0, 3) if (tier == "thorough" and name == "graphs-3x3-DU") else None
+        run_config(run, prop, name, consts, wd, spec, probe_filter=pf)
     for (name, consts), sp, sim, pf in extra:
         if sim:
             run_config(run, prop, name, consts, wd, sp, simulate=sim[0], depth=sim[1], seed=seed + 1, probe_filter=pf)
